@@ -356,6 +356,10 @@ func oracleC01(r *Result) {
 				r.violate("C01.a success-for-another-request", "C01:callback:success:looked-up-id-differs-from-named-id",
 					"status Success only when the stored request named by the caller exists and reports Done",
 					fmt.Sprintf("caller named %q, the handler looked up %q: %s", t.Sent.CallbackIDs, c.Args[0], replySummary(t)), t.ID)
+			} else if !validSigAlg(w.cfg.IDP.SigAlg) {
+				r.violate("C01.a success-despite-failure", "C01:callback:success-although-signing-is-impossible:configured-algorithm-unusable",
+					"a signing failure yields a non-Success reply (the configured signature algorithm cannot produce a signature at all)",
+					fmt.Sprintf("SignatureAlgorithm %q, reply still Success: %s", w.cfg.IDP.SigAlg, replySummary(t)), t.ID)
 			} else if !liveUserOK {
 				r.violate("C01.a success-for-a-user-who-never-completed", "C01:callback:success:described-user-never-completed-authentication",
 					"status Success and an assertion about a user only when the stored request reports that this user has completed authentication",
